@@ -703,8 +703,74 @@ def sc_ncon(rng, opts):
     return dict(fn=fn, oracle=oracle, operands=ts, describe=dict(sym=sym, shape=shape, order=order, einsum=use_einsum, conjs=conjs, policy=cfg.tensordot_policy))
 
 
+def sc_chain(rng, opts):
+    """a finite sequence of public operations applied to a tensor, with the dense value tracked by NumPy alongside"""
+    sym, cfg = pick_cfg(rng, opts)
+    r = rng.randint(1, 3)
+    la = [rleg(rng, cfg, sym, maxD=2) for _ in range(r)]
+    a0 = rtensor(rng, cfg, la, n=allowed_charge(rng, cfg, sym, la), cplx=rng.random() < 0.2, drop=rng.choice([0, 0.2]))
+    nsteps = opts.get('steps') or rng.randint(2, 7)
+    plan = [rng.choice(['transpose', 'conj', 'scale', 'add', 'dot', 'fuse_unfuse', 'add_remove_leg', 'fuse_keep', 'copy', 'svd_recombine'])
+            for _ in range(nsteps)]
+    seeds = [rng.randrange(10 ** 9) for _ in range(nsteps)]
+    inter = []
+
+    def fn2():
+        del inter[:]
+        x = a0
+        d = dense(a0)
+        lg = list(a0.get_legs()) if a0.ndim else []
+        ok = True
+        for step, sd in zip(plan, seeds):
+            rr = random.Random(sd)
+            if x.ndim > 5 and step == 'dot':
+                step = 'transpose'
+            if step == 'transpose' and x.ndim >= 2:
+                p = list(range(x.ndim)); rr.shuffle(p)
+                x = x.transpose(tuple(p)); d = d.transpose(p); lg = [lg[i] for i in p]
+            elif step == 'conj':
+                x = x.conj(); d = d.conj(); lg = [l.conj() for l in lg]
+            elif step == 'scale':
+                k = rr.choice([-1, 2, 3]); x = k * x; d = k * d
+            elif step == 'add' and x.ndim and all(m == (1,) for m in x.mfs):
+                y = rtensor(rr, cfg, lg, n=x.n, cplx=False, drop=rr.choice([0, 0.4]))
+                x = x + y; d = d + dense(y, dict(enumerate(lg)))
+            elif step == 'dot' and x.ndim >= 1 and all(m == (1,) for m in x.mfs):
+                nc = rr.randint(1, min(2, x.ndim))
+                axx = rr.sample(range(x.ndim), nc)
+                newl = [rleg(rr, cfg, sym, maxD=2) for _ in range(rr.randint(0, 2))]
+                lb = [lg[i].conj() for i in axx] + newl
+                y = rtensor(rr, cfg, lb, n=allowed_charge(rr, cfg, sym, lb), cplx=False, drop=rr.choice([0, 0.3]))
+                dy = dense(y, dict(enumerate(lb)))
+                x = yastn.tensordot(x, y, axes=(axx, list(range(nc))))
+                d = np.tensordot(d, dy, axes=(axx, list(range(nc))))
+                lg = [lg[i] for i in range(len(lg)) if i not in axx] + newl
+            elif step in ('fuse_unfuse', 'fuse_keep') and x.ndim >= 2 and all(m == (1,) for m in x.mfs):
+                i = rr.randrange(x.ndim - 1)
+                axes = tuple(range(i)) + ((i, i + 1),) + tuple(range(i + 2, x.ndim))
+                y = x.fuse_legs(axes=axes, mode=rr.choice(['hard', 'meta']))
+                inter.append(y)
+                x = y.unfuse_legs(axes=i)
+            elif step == 'add_remove_leg' and x.size > 0:
+                ax = rr.randint(0, x.ndim)
+                y = x.add_leg(axis=ax, s=rr.choice([1, -1]))
+                inter.append(y)
+                x = y.remove_leg(axis=ax)
+            elif step == 'copy':
+                x = x.copy() if rr.random() < 0.5 else x.consume_transpose()
+            elif step == 'svd_recombine' and x.ndim >= 2 and x.size > 0 and all(m == (1,) for m in x.mfs):
+                nl = rr.randint(1, x.ndim - 1)
+                U, S, V = yastn.svd(x, axes=(tuple(range(nl)), tuple(range(nl, x.ndim))), sU=rr.choice([1, -1]), nU=rr.random() < 0.5)
+                inter.extend([U, S, V])
+            inter.append(x)
+        fn2.expected = dict(dense=d, legs=dict(enumerate(lg)), n=None)
+        return x
+    return dict(fn=fn2, oracle=lambda c: fn2.expected, operands=[a0], intermediates=inter,
+                describe=dict(sym=sym, plan=plan, policy=cfg.tensordot_policy, legs=str(a0.get_legs()) if a0.ndim else '()'))
+
+
 SCENARIOS = dict(tensordot=sc_tensordot, add=sc_add, unary=sc_unary, trace=sc_trace, vdot=sc_vdot, diag=sc_diag_ops, legs=sc_legs,
-                 fuse=sc_fuse, swap=sc_swap, ncon=sc_ncon)
+                 fuse=sc_fuse, swap=sc_swap, ncon=sc_ncon, chain=sc_chain)
 
 
 def build(kind, seed, opts=None):
